@@ -191,10 +191,10 @@ Proof.
   destruct (str_eqb f f'); [discriminate|exact IH].
 Qed.
 
-Theorem cts_valid_self store t ts : cload_ts store t = Ok ts -> cts_valid ts t = true.
+Theorem cts_valid_self bd store t ts : cload_ts bd store t = Ok ts -> cts_valid ts t = true.
 Proof.
   unfold cload_ts, loaded_files. intros HL.
-  destruct (load (ytree_of store t) project_file); cbn [rbind] in HL; try discriminate.
+  destruct (load (ytree_of store t) project_file bd); cbn [rbind] in HL; try discriminate.
   unfold rmap in HL.
   destruct (load_files _ (ytree_of store t) [(project_file, None)] 0 []) as [[ds fs]| | |] eqn:ELF; cbn [rbind] in HL; try discriminate.
   injection HL as <-. unfold cts_valid. apply forallb_forall. intros [f v] Hin. cbn [fst snd].
@@ -216,12 +216,13 @@ Qed.
 Section InstanceFacts.
   Variable H : list ascii -> N.
   Variable EV : str -> evr.
+  Variable bd : str.
   Variable store : str -> N -> list ydoc.
 
-  Notation crun := (crun H EV store).
-  Notation cstep := (cstep H EV store).
-  Notation cgen := (cgen H EV store).
-  Notation cload_ts := (cload_ts store).
+  Notation crun := (crun H EV bd store).
+  Notation cstep := (cstep H EV bd store).
+  Notation cgen := (cgen H EV bd store).
+  Notation cload_ts := (cload_ts bd store).
   Notation cworld := (world vtree cargs tstate gen_result).
   Notation CInv := (Inv vtree cargs tstate gen_result cprecheck cload_ts cgen cis_local).
   Notation cfresh := (fresh vtree cargs tstate gen_result).
@@ -234,7 +235,7 @@ Section InstanceFacts.
      (Assumed of Load.v's [load]/[load_files] here; see DESIGN.md.) *)
   Definition load_frame : Prop :=
     forall t1 t2 ts, cload_ts t1 = Ok ts -> cts_valid ts t2 = true ->
-                     cload_ts t2 = Ok ts /\ load (ytree_of store t2) project_file = load (ytree_of store t1) project_file.
+                     cload_ts t2 = Ok ts /\ load (ytree_of store t2) project_file bd = load (ytree_of store t1) project_file bd.
 
   Lemma frame_gen : load_frame ->
     forall t1 t2 ts, cload_ts t1 = Ok ts -> cts_valid ts t2 = true ->
@@ -256,7 +257,7 @@ Section InstanceFacts.
          --apps narrowing in global mode only *)
       (ca_le (c_args _ _ _ c) = ca_le a -> ca_define (c_args _ _ _ c) = ca_define a -> ca_partition a = None ->
        (ca_local a = None \/ ca_apps a = ca_apps (c_args _ _ _ c)) -> ca_local (c_args _ _ _ c) = ca_local a ->
-       (forall b, load (ytree_of store (w_tree _ _ _ _ w)) project_file = Ok b -> ctx_names_ok b) ->
+       (forall b, load (ytree_of store (w_tree _ _ _ _ w)) project_file bd = Ok b -> ctx_names_ok b) ->
        exists g',
          snd (crun a 0 (cfresh (w_tree _ _ _ _ w))) = ORegen g' /\
          (forall x, In x (gr_builds g') <->
@@ -271,7 +272,7 @@ Section InstanceFacts.
     destruct (caccepts_spec _ _ _ Hacc) as (_ & Hp2 & Hbs & Has & _ & Hkb & Hka & _ & Hsel & Hdis & _).
     (* unfold the cached generation *)
     unfold Cache.cgen in Hg.
-    destruct (load (ytree_of store (w_tree _ _ _ _ w)) project_file) as [b| | |] eqn:Eload; cbn [rbind] in Hg; try discriminate.
+    destruct (load (ytree_of store (w_tree _ _ _ _ w)) project_file bd) as [b| | |] eqn:Eload; cbn [rbind] in Hg; try discriminate.
     destruct (cli_selects (c_args _ _ _ c)) as [sel| | |] eqn:Esel; cbn [rbind] in Hg; try discriminate.
     destruct (cli_env (c_args _ _ _ c)) as [cenv| | |] eqn:Eenv; cbn [rbind] in Hg; try discriminate.
     rewrite Hp2, Hpart in Hg.
@@ -295,6 +296,49 @@ Section InstanceFacts.
       intros x. rewrite Hbuilds, Hv. split.
       + intros (Hx & Hs1 & Hs2). split; [|tauto]. apply (proj2 (cview_builds a r x)). tauto.
       + intros (Hx & Hs1 & Hs2). split; [|tauto]. apply (proj1 (cview_builds a r x)). tauto.
+  Qed.
+
+  (* with --partition the cache is only accepted for the same selection: the fresh run then is the
+     cached generation itself *)
+  Theorem hit_with_partition a k w w' r' :
+    load_frame -> CInv w -> crun a k w = (w', OHit r') -> ca_partition a <> None ->
+    exists c r,
+      s_cache _ _ _ (get_slot _ _ _ _ w (cis_local a)) = Some c /\
+      s_ninja _ _ _ (get_slot _ _ _ _ w (cis_local a)) = NComplete r /\ r' = cview a r /\
+      (ca_le (c_args _ _ _ c) = ca_le a -> ca_define (c_args _ _ _ c) = ca_define a ->
+       ca_local (c_args _ _ _ c) = ca_local a ->
+       snd (crun a 0 (cfresh (w_tree _ _ _ _ w))) = ORegen r /\
+       (forall x, In x (gr_builds r) <->
+                  In x (gr_builds r') /\ selects (ca_builders a) (bi_builder x) = true /\ selects (ca_apps a) (bi_binary x) = true)).
+  Proof.
+    intros LF HI Hrun Hpart.
+    destruct (hit_sound _ _ _ _ cprecheck cload_ts cgen cts_valid caccepts cview cis_local (frame_gen LF) a k w w' r' HI Hrun)
+      as (-> & c & r & Hc & Hr & Hacc & Hts & Hl & Hg & Hn & Hv).
+    exists c, r. split; [exact Hc|]. split; [exact Hn|]. split; [exact Hv|].
+    intros Hle Hdef Hlocal.
+    destruct (caccepts_spec _ _ _ Hacc) as (_ & Hp2 & _ & _ & Hord & _ & _ & _ & Hsel & Hdis & _).
+    destruct (Hord Hpart) as [Hbo Has].
+    unfold Cache.cgen in Hg.
+    destruct (load (ytree_of store (w_tree _ _ _ _ w)) project_file bd) as [b| | |] eqn:Eload; cbn [rbind] in Hg; try discriminate.
+    destruct (cli_selects (c_args _ _ _ c)) as [sel| | |] eqn:Esel; cbn [rbind] in Hg; try discriminate.
+    destruct (cli_env (c_args _ _ _ c)) as [cenv| | |] eqn:Eenv; cbn [rbind] in Hg; try discriminate.
+    assert (Esel' : cli_selects a = Ok sel) by (unfold cli_selects in *; rewrite <- Hsel; exact Esel).
+    assert (Eenv' : cli_env a = Ok cenv) by (unfold cli_env in *; rewrite <- Hdef; exact Eenv).
+    rewrite Hp2, Hle, Hlocal, Hdis in Hg.
+    rewrite (generate_same_selection H EV b (ca_le a) _ _ (ca_builders a) (ca_apps a) (ca_local a) _ sel (ca_disable a) cenv Hbo Has) in Hg.
+    assert (Hcg : cgen (w_tree _ _ _ _ w) a = Ok r).
+    { unfold Cache.cgen. rewrite Eload, Esel', Eenv'. cbn [rbind]. exact Hg. }
+    split.
+    - assert (Hp : cprecheck a = Ok tt) by (unfold cprecheck; rewrite Esel', Eenv'; reflexivity).
+      unfold Cache.crun, Cache.mrun. rewrite Hp.
+      assert (Hlk : lookup vtree cargs tstate gen_result cts_valid caccepts cview cis_local a (cfresh (w_tree _ _ _ _ w)) = None)
+        by (unfold lookup; destruct (cis_local a); reflexivity).
+      rewrite Hlk. change (w_tree _ _ _ _ (cfresh (w_tree _ _ _ _ w))) with (w_tree _ _ _ _ w).
+      rewrite Hl. cbn [Nat.eqb orb]. rewrite Hcg. reflexivity.
+    - intros x. rewrite Hv. split.
+      + intros Hx. destruct (generated_builds_selected H EV _ _ _ _ _ _ _ _ _ _ Hg x Hx) as [S1 S2].
+        split; [|tauto]. apply (proj2 (cview_builds a r x)). tauto.
+      + intros (Hx & S1 & S2). apply (proj1 (cview_builds a r x)). tauto.
   Qed.
 
   (* an unchanged project with an identical command line is served from the cache *)
